@@ -103,6 +103,10 @@ func Main() {
 		fmt.Fprintln(os.Stderr, "unknown property", *prop)
 		os.Exit(3)
 	}
+	if g, ok := GenericPhases[*phase]; ok {
+		// a phase implemented outside the engines (cmd/vworker/swallowed.go): cases are a fixed grid
+		e = &Engine{ID: *prop, Run: g}
+	}
 	if strings.HasPrefix(*phase, CompanyOnly) {
 		// the battery alone: every case is one batch of overlapping executions (both build flavours)
 		e = &Engine{ID: *prop, Run: func(c *Case) {
@@ -210,6 +214,10 @@ func RegisterChild(name string, f func(args []string)) { children[name] = f }
 // CompanySuffix marks a phase whose cases are those of the base phase, run while
 // background goroutines of the same process execute other programs.
 const CompanySuffix = "+company"
+
+// GenericPhases are phases every engine of a listed property gets, implemented once (the
+// orchestrator derives them; `vworker -child generic-count <phase> <prop>` prints the case count).
+var GenericPhases = map[string]func(c *Case){}
 
 // CompanyOnly is the name (prefix) of the phases in which the battery runs alone: batches of
 // CompanyOnlyGoroutines goroutines, CompanyOnlyRounds programs each, released together.
